@@ -8,7 +8,7 @@ EXTENDS Integers, Sequences, FiniteSets
 \* coordinates are names; Pos gives (sheet index, column, row), all 1-based here
 Pos == [ S1A1 |-> <<1, 1, 1>>, S1B1 |-> <<1, 2, 1>>, S1C1 |-> <<1, 3, 1>>, S1D1 |-> <<1, 4, 1>>,
          S1A2 |-> <<1, 1, 2>>, S1B2 |-> <<1, 2, 2>>, S1C2 |-> <<1, 3, 2>>, S1D2 |-> <<1, 4, 2>>,
-         S1F4 |-> <<1, 6, 4>>,
+         S1E1 |-> <<1, 5, 1>>, S1F4 |-> <<1, 6, 4>>,
          S2A1 |-> <<2, 1, 1>>, S2B1 |-> <<2, 2, 1>>, S2C3 |-> <<2, 3, 3>> ]
 AllCoords == DOMAIN Pos
 Sheets == {1, 2}
@@ -16,11 +16,13 @@ Sheets == {1, 2}
 K(v) == [op |-> "const", v |-> v]
 Bin(o, a, b) == [op |-> o, a |-> a, b |-> b]
 \* S1: A1=3  B1=5  C1=A1+B1  D1=C1*2 ; A2 blank  B2=8/A2 (fails while A2 is blank)  C2=B2+1  D2=A2+1
+\*     E1=F4+S2!C3 reads two cells that lie beyond the used ranges (blank until they are overridden)
 \* S2: A1=S1!A1*5  B1=10 ;  S1!F4 and S2!C3 lie beyond the used range
 WB == [ S1A1 |-> K(3), S1B1 |-> K(5), S1C1 |-> Bin("add", "S1A1", "S1B1"), S1D1 |-> Bin("mulk", "S1C1", 2),
         S1B2 |-> Bin("kdiv", 8, "S1A2"), S1C2 |-> Bin("addk", "S1B2", 1), S1D2 |-> Bin("addk", "S1A2", 1),
+        S1E1 |-> Bin("add", "S1F4", "S2C3"),
         S2A1 |-> Bin("mulk", "S1A1", 5), S2B1 |-> K(10) ]
-UsedSize == [s \in Sheets |-> IF s = 1 THEN [rows |-> 2, cols |-> 4] ELSE [rows |-> 1, cols |-> 2]]
+UsedSize == [s \in Sheets |-> IF s = 1 THEN [rows |-> 2, cols |-> 5] ELSE [rows |-> 1, cols |-> 2]]
 
 \* values: [k |-> "num", n] | [k |-> "blank"] | [k |-> "err"] | [k |-> "other"]
 Num(n) == [k |-> "num", n |-> n]
